@@ -7,7 +7,9 @@ from . import common as C
 
 # alphabet: 1-, 2-, 3-, 4-byte characters and invalid bytes / sequences
 ALPHA = [b"a", b"\n", "é".encode(), "ß".encode(), "€".encode(), "퟿".encode(), "🤠".encode(),
-         "\U0010ffff".encode(), b"\x80", b"\xff", b"\xc0", b"\xed\xa0\x80"[:2], b"\xf4\x90"]
+         "\U0010ffff".encode(), b"\x80", b"\xff", b"\xc0", b"\xed\xa0\x80"[:2], b"\xf4\x90",
+         # proper prefixes of valid sequences (a character cut short by the end of the input)
+         b"\xc3", b"\xe2", b"\xe2\x82", b"\xf0\x9f", b"\xf0\x9f\xa4"]
 
 
 def compositions(n, maxpart=4):
@@ -140,6 +142,28 @@ def run(tier, seed):
         elif r[0] in ("CRASH", "ABORT"):
             chk.violation(f"asm:crash:{p}", f"assemble crashed when reading {p} failed at byte {k}",
                           {"mode": "asm", "file": p, "fail_at": k, "impl": r[:2]})
+    # source files that are not UTF-8 (an invalid byte or a character cut short) in a comment, in a
+    # string, between statements, as the very last bytes of the root or of an included file
+    blines, bmeta = [], []
+    for bad in (b"\xc3", b"\xe2\x82", b"\xf0\x9f\xa4", b"\xff", b"\x80", b"\xc0\xaf", b"\xed\xa0\x80"):
+        for where, text in (("comment-eof", b"@db 1\n; tail " + bad), ("comment-mid", b"@db 1 ; c " + bad + b"\n@db 2\n"), ("string", b'@db "a' + bad + b'"\n'),
+                            ("statement-eof", b"@db 1\n" + bad), ("char", b"@db 'x" + bad + b"'\n"), ("label", b"la" + bad + b"b:\n")):
+            for in_inc in (False, True):
+                for chunks in ("", "@c1", "@c2,1"):
+                    fsm = {"/m.asm": (b'@include "i.asm"\n@db 9\n' if in_inc else text)}
+                    if in_inc:
+                        fsm["/i.asm"] = text
+                    cid = f"b{len(blines)}"
+                    blines.append(f"{cid}\tasm\t6502\t/\t/m.asm\t-\t" + ";".join(f"{q}={e.hex()}{chunks}" for q, e in fsm.items()))
+                    bmeta.append((cid, bad, where, in_inc, chunks))
+    bimpl = C.run_impl(blines)
+    for cid, bad, where, in_inc, chunks in bmeta:
+        r = bimpl.get(cid, ["MISSING"])
+        chk.evaluations += 1
+        chk.distinct.add(("notutf8", bad, where, in_inc))
+        if r[0] != "ERR":
+            chk.violation(f"asm:notutf8:{where}", f"a source file that is not UTF-8 (bytes {bad.hex()} in {where}, {'included file' if in_inc else 'root'}, chunks '{chunks}') was not rejected: {r[:2]}",
+                          {"mode": "asm", "bad": bad.hex(), "where": where, "included": in_inc, "chunks": chunks, "impl": r[:2]})
     chk.oblige("correspondence: CharReader = Model.CR.run on every (bytes, chunking, fault) explored",
                not chk.disagreements, json.dumps(chk.disagreements[:2])[:600])
     chk.coverage.update({"exhaustive": True,
